@@ -965,10 +965,49 @@ pub async fn cmd_stall(args: Vec<String>) -> Result<()> {
         drop(dead_rep);
         std::mem::forget(keep);
     }
+    // several topics stalled at the same time (each with a subscriber that never reads and a publisher that has
+    // filled every window): whatever the stalled routers hold on to, the healthy topics have their own
+    {
+        let run = 4u64;
+        let n_stalled = 6;
+        log.emit("case", json!({"run": run, "order": "many_stalled_topics", "regs": n_stalled}));
+        let mut keep_alive: Vec<Box<dyn std::any::Any + Send>> = vec![];
+        for t in 0..n_stalled {
+            let topic = format!("/vstall{run}/stalled{t}");
+            let raw = raw_connect_trusted(env.server.addr, &env.certs).await?;
+            let mut dead_sub = raw_stream(&raw).await?;
+            dead_sub.send(reg_frame("sub", TopicName::try_from(topic.as_str())?)).await?;
+            let _ = first_reply(&mut dead_sub).await;
+            let client = connect_client(env.server.addr, &env.certs, BackoffStrategy::constant().with_max_attempts(0)).await?;
+            let mut publ = client.publisher(&topic).with_encoder(BytesCodec).open().await?;
+            let mut sent = 0;
+            for _ in 0..12 {
+                match tokio::time::timeout(Duration::from_millis(1_500), publ.send(vec![7u8; 900_000])).await {
+                    Ok(Ok(())) => sent += 1,
+                    _ => break,
+                }
+            }
+            log.emit("flood", json!({"sent": sent, "topic": t}));
+            keep_alive.push(Box::new((raw, dead_sub, client, publ)));
+        }
+        let client_b = connect_client(env.server.addr, &env.certs, BackoffStrategy::constant().with_max_attempts(0)).await?;
+        for (i, pattern) in ["pubsub", "reqrep", "pubsub"].iter().enumerate() {
+            let t0 = std::time::Instant::now();
+            let r = tokio::time::timeout(Duration::from_secs(30), probe(&client_b, &format!("/vstall{run}/healthy{i}"), pattern)).await;
+            let res = match r {
+                Ok(Ok(())) => "ok".to_string(),
+                Ok(Err(e)) => format!("fail: {e}"),
+                Err(_) => "timeout_30s".to_string(),
+            };
+            log.emit("other_topic_roundtrip", json!({"res": res, "ms": t0.elapsed().as_millis() as u64, "who": "fresh_client_while_several_topics_are_stalled"}));
+        }
+        log.emit("done", json!({"panics": PANICS.load(Ordering::SeqCst)}));
+        std::mem::forget(keep_alive);
+    }
     selium_server::verif::set_observer(None);
     env.log.flush();
     let _ = std::fs::remove_dir_all(&env.certs);
-    println!("{}", json!({"runs": 3, "events": env.log.lines()}));
+    println!("{}", json!({"runs": 4, "events": env.log.lines()}));
     Ok(())
 }
 
